@@ -201,8 +201,14 @@ func genStructuredTag(c *core.Ctx) (string, structured) {
 		switch c.Rng.Intn(5) {
 		case 0: // bare
 			a.items = nil
+		case 1: // "name=": one empty item
+			a.items = []string{""}
 		default:
 			for k := 0; k < 1+c.Rng.Intn(3); k++ {
+				if c.Rng.Intn(8) == 0 {
+					a.items = append(a.items, "") // leading / trailing / doubled blank: an empty item
+					continue
+				}
 				a.items = append(a.items, genToken(c, true, 0))
 			}
 		}
@@ -412,7 +418,7 @@ func (p c19) e2e(c *core.Ctx) {
 	extra := func() string {
 		var parts []string
 		for i := 0; i < c.Rng.Intn(3); i++ {
-			parts = append(parts, []string{"x=1 2", "note=[a,b] c", "Zed", "q1={k,v}", "embed"}[c.Rng.Intn(5)])
+			parts = append(parts, []string{"x=1 2", "note=[a,b] c", "Zed", "q1={k,v}", "embed", "mapper=", "timeLayout= ", "x=  y"}[c.Rng.Intn(8)])
 		}
 		if len(parts) == 0 {
 			return ""
